@@ -526,12 +526,15 @@ Proof.
   destruct r; [congruence|]. destruct v; [congruence|]. split; reflexivity.
 Qed.
 
-Lemma map_step_ok e b (first : bool) : ok_entry e ->
-  nlv_map_step true (b, first) e =
-  (b ++ (if first then [] else [bCM]) ++ string_bytes (fst e) ++ bCO :: string_bytes (snd e), false).
+(* the tags as they are written: what the dedup of MarshalJSON compares *)
+Definition wkey (e : lrv) : bytes := string_bytes (fst e).
+
+Lemma map_step_ok e b (first : bool) keys : ok_entry e -> existsb (bytes_eqb (wkey e)) keys = false ->
+  nlv_map_step true true (b, first, keys) e =
+  (b ++ (if first then [] else [bCM]) ++ string_bytes (fst e) ++ bCO :: string_bytes (snd e), false, keys ++ [wkey e]).
 Proof.
-  intros Hok. destruct (ok_entry_lengths e Hok) as [L1 L2]. destruct e as [ref v]. simpl fst in *. simpl snd in *.
-  unfold nlv_map_step. rewrite L1, L2. simpl orb. cbv iota.
+  intros Hok Hk. destruct (ok_entry_lengths e Hok) as [L1 L2]. destruct e as [ref v]. unfold wkey in *. simpl fst in *. simpl snd in *.
+  unfold nlv_map_step. rewrite L1, L2. simpl orb. cbv iota. rewrite Hk. cbn [andb]. cbv iota.
   unfold lrv_marshal. rewrite L1. simpl negb. rewrite andb_true_r.
   destruct (bytes_eqb ref NilRef) eqn:E.
   - simpl negb. cbv iota.
@@ -544,25 +547,39 @@ Proof.
     rewrite <- Ev. destruct first; cbn [andb]; cbv iota; lnorm; reflexivity.
 Qed.
 
-Lemma fold_map_step l : forall b first, Forall ok_entry l ->
-  fold_left (nlv_map_step true) l (b, first) =
-  (b ++ pm jprint first (map entry_tree l), match l with [] => first | _ => false end).
+Lemma existsb_eqb_false k keys : ~ In k keys -> existsb (bytes_eqb k) keys = false.
 Proof.
-  induction l as [|e r IH]; intros b first Hok.
-  - simpl. rewrite app_nil_r. reflexivity.
-  - inversion Hok as [|? ? He Hr]; subst. cbn [fold_left]. rewrite (map_step_ok e b first He), (IH _ _ Hr).
-    cbn [map]. rewrite pm_cons. change (jprint (snd (entry_tree e))) with (string_bytes (snd e)). change (fst (entry_tree e)) with (fst e).
-    f_equal; [|destruct r; reflexivity].
-    destruct first; lnorm; reflexivity.
+  intros H. destruct (existsb (bytes_eqb k) keys) eqn:E; [|reflexivity]. exfalso. apply H.
+  apply existsb_exists in E. destruct E as [x [Hx Hxe]]. apply NlvP.bytes_eqb_eq in Hxe. subst. exact Hx.
 Qed.
 
-Lemma nlv_marshal_multi e1 e2 l : Forall ok_entry (e1 :: e2 :: l) ->
+(* written tags pairwise distinct, and distinct from the keys registered so far *)
+Lemma fold_map_step l : forall b first keys, Forall ok_entry l -> NoDup (keys ++ map wkey l) ->
+  fold_left (nlv_map_step true true) l (b, first, keys) =
+  (b ++ pm jprint first (map entry_tree l), match l with [] => first | _ => false end, keys ++ map wkey l).
+Proof.
+  induction l as [|e r IH]; intros b first keys Hok Hnd.
+  - simpl. rewrite !app_nil_r. reflexivity.
+  - inversion Hok as [|? ? He Hr]; subst. cbn [fold_left].
+    assert (Hk : existsb (bytes_eqb (wkey e)) keys = false).
+    { apply existsb_eqb_false. intros Hin. cbn [map] in Hnd. apply NoDup_remove_2 in Hnd. apply Hnd. apply in_or_app. left. exact Hin. }
+    rewrite (map_step_ok e b first keys He Hk).
+    assert (Hnd' : NoDup ((keys ++ [wkey e]) ++ map wkey r)) by (rewrite <- app_assoc; exact Hnd).
+    rewrite (IH _ _ _ Hr Hnd').
+    cbn [map]. rewrite pm_cons. change (jprint (snd (entry_tree e))) with (string_bytes (snd e)). change (fst (entry_tree e)) with (fst e).
+    f_equal; [f_equal|].
+    + destruct first; lnorm; reflexivity.
+    + destruct r; reflexivity.
+    + rewrite <- app_assoc. reflexivity.
+Qed.
+
+Lemma nlv_marshal_multi e1 e2 l : Forall ok_entry (e1 :: e2 :: l) -> NoDup (map wkey (e1 :: e2 :: l)) ->
   nlv_marshal (e1 :: e2 :: l) = Some (jprint (JO (map entry_tree (e1 :: e2 :: l)))).
 Proof.
-  intros Hok. unfold nlv_marshal, nlv_marshal_gen. destruct e1 as [r1 v1].
+  intros Hok Hnd. unfold nlv_marshal, nlv_marshal_gen. destruct e1 as [r1 v1].
   match goal with |- context [fold_left ?f ?x ?s] =>
-    assert (E : fold_left f x s = ([bLB] ++ pm jprint true (map entry_tree x), false))
-      by (exact (fold_map_step _ _ _ Hok)); rewrite E end.
+    assert (E : fold_left f x s = ([bLB] ++ pm jprint true (map entry_tree x), false, [] ++ map wkey x))
+      by (exact (fold_map_step x [bLB] true [] Hok Hnd)); rewrite E end.
   rewrite jprint_JO. reflexivity.
 Qed.
 
@@ -714,13 +731,32 @@ Proof.
   rewrite get_text_doc. cbn [fj_of read_value]. rewrite (escape_core false t Hv). reflexivity.
 Qed.
 
-Lemma json_multi ku ty p l : plain_name ty -> 2 <= length l -> Forall ok_entry l ->
+(* valid UTF-8 strings are written apart: distinct tags give distinct member names *)
+Lemma string_bytes_inj a b : valid_utf8 a -> valid_utf8 b -> string_bytes a = string_bytes b -> a = b.
+Proof.
+  intros Ha Hb H. rewrite !string_bytes_head in H. inversion H as [H1]. apply app_inv_tail in H1.
+  rewrite <- (escape_core false a Ha), <- (escape_core false b Hb), H1. reflexivity.
+Qed.
+
+Lemma wkeys_nodup l : Forall ok_entry l -> NoDup (map fst l) -> NoDup (map wkey l).
+Proof.
+  induction l as [|e r IH]; intros Hok Hnd; [constructor|].
+  inversion Hok as [|? ? He Hr]; subst. cbn [map] in *. inversion Hnd as [|? ? Hni Hnd']; subst.
+  constructor; [|exact (IH Hr Hnd')].
+  intros Hin. apply Hni. apply in_map_iff in Hin. destruct Hin as [x [Hx Hxin]]. apply in_map_iff. exists x. split; [|exact Hxin].
+  unfold wkey in Hx. rewrite Forall_forall in Hr. pose proof (Hr x Hxin) as Hxo.
+  destruct Hxo as [Hv1 _]. destruct He as [Hv2 _]. exact (string_bytes_inj _ _ Hv1 Hv2 Hx).
+Qed.
+
+(* a language MAP: the tags are pairwise distinct.  (Of several values under one tag only the first is written, since
+   fix 05721dc: json_multi_dup below.) *)
+Lemma json_multi ku ty p l : plain_name ty -> 2 <= length l -> Forall ok_entry l -> NoDup (map fst l) ->
   text_after_json_roundtrip ku ty p l = Ok l.
 Proof.
-  intros Hty Hlen Hok. destruct l as [|e1 [|e2 l]]; try (simpl in Hlen; lia).
+  intros Hty Hlen Hok Hnd. apply (wkeys_nodup l Hok) in Hnd. destruct l as [|e1 [|e2 l]]; try (simpl in Hlen; lia).
   unfold text_after_json_roundtrip, doc_decode, doc_encode.
   rewrite (doc_encode_gen_eq nlv_marshal ty p (e1 :: e2 :: l) (jprint (JO (map entry_tree (e1 :: e2 :: l)))));
-    [|discriminate|apply nlv_marshal_multi; exact Hok|rewrite jprint_JO; discriminate].
+    [|discriminate|apply nlv_marshal_multi; [exact Hok|exact Hnd]|rewrite jprint_JO; discriminate].
   pose proof (jprint_doc ty p (text_key p (e1 :: e2 :: l)) (JO (map entry_tree (e1 :: e2 :: l))) Hty
                 (string_bytes_text_key p _)) as E.
   rewrite <- E. fold (doc_of ty p (text_key p (e1 :: e2 :: l)) (JO (map entry_tree (e1 :: e2 :: l)))).
